@@ -705,7 +705,8 @@ def mpf_log(x, prec, rnd=round_fast):
         cancellation = bc - tbc
         if cancellation > wp:
             t = normalize(tsign, tman, abs_mag-bc, tbc, tbc, 'n')
-            return mpf_perturb(t, tsign, prec, rnd)
+            # log(1+t) = t - t**2/2 + ... lies below t for either sign of t
+            return mpf_perturb(t, 1, prec, rnd)
         else:
             wp += cancellation
         # TODO: if close enough to 1, we could use Taylor series
